@@ -2823,15 +2823,31 @@ sexp sexp_read_float_tail (sexp ctx, sexp in, double whole, int negp) {
   int c, c2;
   sexp exponent=SEXP_VOID;
   long double val=0.0, scale=10, e=0.0;
+  /* the digits are also kept as text: summing them in floating point
+     is off by an ulp for one decimal in ten, strtod rounds correctly */
+  char sbuf[128], *buf=sbuf, *tmpbuf;
+  size_t len=0, cap=sizeof(sbuf);
   sexp_gc_var1(res);
   sexp_gc_preserve1(ctx, res);
   for (c=sexp_read_char(ctx, in); sexp_isdigit(c);
-       c=sexp_read_char(ctx, in), val*=10, scale*=10)
+       c=sexp_read_char(ctx, in), val*=10, scale*=10) {
     val += digit_value(c);
+    if (buf && len+64 >= cap) {
+      tmpbuf = (char*) ((buf == sbuf) ? malloc(cap*2) : realloc(buf, cap*2));
+      if (tmpbuf && buf == sbuf) memcpy(tmpbuf, sbuf, len);
+      if (!tmpbuf && buf != sbuf) free(buf);
+      buf = tmpbuf;
+      cap *= 2;
+    }
+    if (buf) buf[len++] = c;
+  }
 #if SEXP_USE_PLACEHOLDER_DIGITS
   for (; c==SEXP_PLACEHOLDER_DIGIT;
-       c=sexp_read_char(ctx, in), val*=10, scale*=10)
+       c=sexp_read_char(ctx, in), val*=10, scale*=10) {
     val += sexp_placeholder_digit_value(10);
+    if (buf && buf != sbuf) free(buf);
+    buf = NULL;
+  }
 #endif
   val /= scale;
   val += whole;
@@ -2841,6 +2857,7 @@ sexp sexp_read_float_tail (sexp ctx, sexp in, double whole, int negp) {
     if (c2 != '+') sexp_push_char(ctx, c2, in);
     exponent = sexp_read_number(ctx, in, 10, 0);
     if (sexp_exceptionp(exponent)) {
+      if (buf && buf != sbuf) free(buf);
       sexp_gc_release1(ctx);
       return exponent;
     }
@@ -2852,20 +2869,36 @@ sexp sexp_read_float_tail (sexp ctx, sexp in, double whole, int negp) {
 #endif
     e = (sexp_fixnump(exponent) ? sexp_unbox_fixnum(exponent)
          : sexp_flonump(exponent) ? sexp_flonum_value(exponent) : 0.0);
+  }
+  if (e != 0.0)
+    val = fabsl(e) > 320 ? exp(log(val) + e*M_LN10) : val * pow(10, e);
+  if (buf && whole >= 0 && whole < 9007199254740992.0 && fabsl(e) < 100000
+      && (e == 0.0 || sexp_fixnump(exponent))) {
+    /* the whole part is exact: let strtod round <whole>.<digits>e<e> */
+    tmpbuf = (char*) malloc(len + 64);
+    if (tmpbuf) {
+      c2 = snprintf(tmpbuf, 40, "%s%.0f.", negp ? "-" : "", whole);
+      memcpy(tmpbuf+c2, buf, len);
+      snprintf(tmpbuf+c2+len, 24, "e%ld", (long)e);
+      val = strtod(tmpbuf, NULL);
+      free(tmpbuf);
+    }
+  }
+  if (is_precision_indicator(c)) {
 #if SEXP_USE_COMPLEX
     if (sexp_complexp(res)) {
       if (sexp_complex_real(res) == SEXP_ZERO) {
-        sexp_complex_imag(res) = sexp_make_flonum(ctx, val * pow(10, e));
+        sexp_complex_imag(res) = sexp_make_flonum(ctx, val);
       } else {
-        sexp_complex_real(res) = sexp_make_flonum(ctx, val * pow(10, e));
+        sexp_complex_real(res) = sexp_make_flonum(ctx, val);
       }
+      if (buf && buf != sbuf) free(buf);
       sexp_gc_release1(ctx);
       return res;
     }
 #endif
   }
-  if (e != 0.0)
-    val = fabsl(e) > 320 ? exp(log(val) + e*M_LN10) : val * pow(10, e);
+  if (buf && buf != sbuf) free(buf);
 #if SEXP_USE_FLONUMS
   res = sexp_make_flonum(ctx, val);
 #else
